@@ -97,7 +97,13 @@ def gen_case(rng):
                     out += (v % (256 ** w)).to_bytes(w, "little")
                 else:
                     ok = False
-        lines.append(".%s %s%s" % (d, rng.choice([", ", ",", " ,"]).join(ops), rng.choice(["", "", "", ' ; "q"', " ; it's", ' // "', ' /* " */', ';"'])))
+        line = ".%s %s%s" % (d, rng.choice([", ", ",", " ,"]).join(ops), rng.choice(["", "", "", ' ; "q"', " ; it's", ' // "', ' /* " */', ';"']))
+        if seg == "c" and rng.random() < 0.15:     # (macros can only be called in the code segment)
+            # the same line reached through a macro: a body is kept and re-read as the text that was written
+            mname = "dm%d" % len(lines)
+            lines += [".macro " + mname, line, ".endm", " " + rng.choice([mname, mname.upper()])]
+        else:
+            lines.append(line)
         if seg == "c":
             if d == "db" and len(out) % 2 == 1:
                 out += b"\0"
